@@ -445,6 +445,158 @@ def writes_between(B, dom, site_bb, place_trace):
 
 
 # --------------------------------------------------------------------------- discharge
+
+def radix_accumulations(F, fn_path):
+    """D6: bounded positional accumulation. Finds, in the HIR of `fn_path`, accumulators that start at literal 0 and are
+    only ever updated as `acc = acc * R + d` with `d` a digit below R (`char::to_digit(R')`, R' <= R), once per element of a
+    collection whose length N is written in the source (array literal / vec! of N expressions). Then acc <= R^N - 1 at every
+    point. Both spellings are understood: a `for` loop with `acc *= R; acc += d`, and `fold`/`try_fold` with a closure
+    `|acc, x| acc * R + d`. -> {span of an arithmetic node: (bound, description)}"""
+    from .facts import walk, peel, lit_value, for_loops, short
+    parent = re.sub(r"(::\{closure#\d+\})+$", "", fn_path)
+    f = F.fns.get(parent)
+    if not f or "hir" not in f:
+        return {}
+    body = f["hir"]["value"]
+    lets = {}
+    for s_ in walk(body, pats=False):
+        if s_.get("k") == "Let" and s_["pat"].get("k") == "PBinding":
+            lets[(s_["pat"]["name"], s_["pat"].get("lid"))] = s_
+
+    def let_of(path_node):
+        for (nm, lid), st in lets.items():
+            if nm == path_node.get("res") and (path_node.get("lid") is None or lid is None or lid == path_node.get("lid")):
+                return st
+        return None
+
+    def static_len(e, depth=0):
+        e = peel(e)
+        if depth > 6:
+            return None
+        if e.get("k") == "Array":
+            return len(e["elems"])
+        if e.get("k") == "Path" and e.get("res_kind") == "Local":
+            st = let_of(e)
+            if st is not None and st.get("init") is not None and "mut" not in (st["pat"].get("mode") or "").lower().replace("not", ""):
+                return static_len(st["init"], depth + 1)
+            return None
+        if e.get("k") == "MethodCall" and e["name"] in ("iter", "into_iter", "copied", "cloned", "by_ref", "chars_unused"):
+            return static_len(e["recv"], depth + 1)
+        if e.get("k") == "Call":
+            # vec![a, b, c, d] expands to a chain of box/into_vec calls around one array literal
+            fn_name = short((e["f"].get("res") or "")) if isinstance(e.get("f"), dict) else ""
+            if fn_name in ("into_vec", "box_assume_init_into_vec_unsafe", "write_box_via_move", "new", "into_iter", "from"):
+                arrs = [static_len(a, depth + 1) for a in e.get("args", [])]
+                arrs = [a for a in arrs if a is not None]
+                if len(arrs) == 1:
+                    return arrs[0]
+        return None
+
+    def digit_radix(e, binders):
+        """radix R' if e is a digit in [0, R'): `x.to_digit(R')` unwrapped by `?`, or a local bound by `Some(d)` over it"""
+        e = peel(e)
+        if e.get("k") == "Match" and e.get("src") == "TryDesugar":
+            inner = e["scrut"]["args"][0] if e["scrut"].get("k") == "Call" and e["scrut"].get("args") else None
+            if inner is not None:
+                inner = peel(inner)
+                if inner.get("k") == "MethodCall" and inner["name"] == "to_digit":
+                    return lit_value(inner["args"][0])
+        if e.get("k") == "Path" and e.get("res_kind") == "Local":
+            return binders.get((e["res"], e.get("lid")))
+        return None
+
+    # locals bound by `Some(d)` against `x.to_digit(R')`
+    binders = {}
+    for m in walk(body, pats=False):
+        scrut, pats_ = None, []
+        if m.get("k") == "Match" and m.get("src") != "TryDesugar":
+            scrut, pats_ = m["scrut"], [a["pat"] for a in m["arms"]]
+        elif m.get("k") == "LetExpr":
+            scrut, pats_ = m["init"], [m["pat"]]
+        elif m.get("k") == "Let" and m.get("els") is not None and m.get("init") is not None:
+            scrut, pats_ = m["init"], [m["pat"]]
+        if scrut is None:
+            continue
+        sc = peel(scrut)
+        if sc.get("k") == "MethodCall" and sc["name"] == "to_digit":
+            r_ = lit_value(sc["args"][0])
+            for p_ in pats_:
+                if short(p_.get("res") or "") == "Some":
+                    for b in walk(p_):
+                        if b.get("k") == "PBinding":
+                            binders[(b["name"], b.get("lid"))] = r_
+
+    out = {}
+
+    def is_local(e, name, lid):
+        e = peel(e)
+        return e.get("k") == "Path" and e.get("res_kind") == "Local" and e.get("res") == name and (lid is None or e.get("lid") is None or e.get("lid") == lid)
+
+    # spelling 1: for loop
+    for fl in for_loops(body):
+        n_ = static_len(fl["iter"])
+        if n_ is None:
+            continue
+        muls = [a for a in walk(fl["body"], pats=False) if a.get("k") == "AssignOp" and a["op"] == "MulAssign"]
+        for mu in muls:
+            acc = peel(mu["l"])
+            if acc.get("k") != "Path" or acc.get("res_kind") != "Local":
+                continue
+            nm, lid = acc["res"], acc.get("lid")
+            st = let_of(acc)
+            if st is None or lit_value(st.get("init") or {}) != 0:
+                continue
+            radix = lit_value(mu["r"])
+            if not isinstance(radix, int) or radix < 2:
+                continue
+            writes = [a for a in walk(body, pats=False) if a.get("k") in ("Assign", "AssignOp") and is_local(a["l"], nm, lid)]
+            inside = {id(a) for a in walk(fl["body"], pats=False)}
+            shape_ok = all(id(a) in inside for a in writes)
+            n_mul = n_add = 0
+            for a in writes:
+                if a.get("k") == "AssignOp" and a["op"] == "MulAssign" and lit_value(a["r"]) == radix:
+                    n_mul += 1
+                elif a.get("k") == "AssignOp" and a["op"] == "AddAssign" and isinstance(digit_radix(a["r"], binders), int) and digit_radix(a["r"], binders) <= radix:
+                    n_add += 1
+                else:
+                    shape_ok = False
+            # nested loops inside the body would multiply the count
+            nested = [x for x in walk(fl["body"], pats=False) if x.get("k") == "Loop"]
+            if shape_ok and n_mul == 1 and n_add == 1 and not nested:
+                bound = radix ** n_ - 1
+                for a in writes:
+                    out[a["sp"]] = (bound, f"`{nm}` starts at 0 and takes one base-{radix} digit per element of a {n_}-element literal collection: at most {radix}^{n_}-1 = {bound}")
+
+    # spelling 2: fold / try_fold
+    for m in walk(body, pats=False):
+        if m.get("k") != "MethodCall" or m["name"] not in ("fold", "try_fold") or len(m.get("args", [])) != 2:
+            continue
+        n_ = static_len(m["recv"])
+        if n_ is None or lit_value(m["args"][0]) != 0:
+            continue
+        cl = peel(m["args"][1])
+        if cl.get("k") != "Closure" or len(cl.get("params", [])) != 2 or cl["params"][0].get("k") != "PBinding":
+            continue
+        nm, lid = cl["params"][0]["name"], cl["params"][0].get("lid")
+        ariths = [b for b in walk(cl["body"], pats=False) if b.get("k") in ("Binary", "AssignOp", "Assign") and b.get("op") not in ("Eq", "Ne", "Lt", "Le", "Gt", "Ge", "And", "Or")]
+        adds = [b for b in ariths if b.get("k") == "Binary" and b["op"] == "Add"]
+        if len(ariths) != 2 or len(adds) != 1:
+            continue
+        add = adds[0]
+        for mul_side, dig_side in ((add["a"], add["b"]), (add["b"], add["a"])):
+            mu = peel(mul_side)
+            if mu.get("k") == "Binary" and mu["op"] == "Mul":
+                for a_, r_ in ((mu["a"], mu["b"]), (mu["b"], mu["a"])):
+                    radix = lit_value(r_)
+                    dr = digit_radix(dig_side, binders)
+                    if is_local(a_, nm, lid) and isinstance(radix, int) and radix >= 2 and isinstance(dr, int) and dr <= radix:
+                        bound = radix ** n_ - 1
+                        d_ = f"the fold starts at 0 and takes one base-{radix} digit per element of a {n_}-element literal collection: at most {radix}^{n_}-1 = {bound}"
+                        out[add["sp"]] = (bound, d_)
+                        out[mu["sp"]] = (bound, d_)
+    return out
+
+
 class Discharger:
     def __init__(self, F):
         self.F = F
@@ -537,6 +689,10 @@ class Discharger:
             if kind.startswith("Overflow("):
                 op = kind[9:-1]
                 tr = ty_range(tys[0])
+                if op in ("Add", "Mul") and tr:
+                    acc_ = radix_accumulations(self.F, s["fn"]).get(s["sp"])
+                    if acc_ and acc_[0] <= tr[1]:
+                        return "D6", acc_[1] + f", fits {tys[0]}"
                 ra, rb = self.R.rng(ops[0], B), self.R.rng(ops[1], B)
                 # interprocedural: operand is a parameter whose every caller passes a small constant
                 for i in (0, 1):
